@@ -42,7 +42,11 @@ func (mgr *Manager) AddCharacter(id key.TargetID, char *model.Character) error {
 
 	// add relic stats from sim config
 	relics := make(map[key.Relic]int)
+	relicOrder := make([]key.Relic, 0, len(char.Relics)) // sets in the order the config lists them
 	for _, r := range char.Relics {
+		if _, seen := relics[key.Relic(r.Key)]; !seen {
+			relicOrder = append(relicOrder, key.Relic(r.Key))
+		}
 		relics[key.Relic(r.Key)] += 1
 		baseStats.Modify(prop.FromProto(r.MainStat.Stat), r.MainStat.Amount)
 		for _, sub := range r.SubStats {
@@ -52,7 +56,8 @@ func (mgr *Manager) AddCharacter(id key.TargetID, char *model.Character) error {
 
 	// add relic stats from relic config + get list of callbacks to call later
 	var relicCBs []relic.CreateEffectFunc
-	for r, count := range relics {
+	for _, r := range relicOrder {
+		count := relics[r]
 		config, err := relic.Get(r)
 		if err != nil {
 			return err
